@@ -547,6 +547,59 @@ def check_case(ctx, case):
                     r = getattr(da, red)(r, axis=-1, keepdims=kd)
                 got = r.compute()
                 exact = exact and red not in ("mean", "nanmean", "var", "std")
+            elif kind == "swvm":
+                # multi-axis windows: distinct, negative and REPEATED axes (NumPy allows axis=(0, 0), (-1, 1))
+                window = tuple(int(w) for w in case["window"])
+                axis_t = tuple(int(a) for a in case["axis"])
+                red = case.get("reducer")
+                sig = f"swv-multi:{red or 'view'}"
+                v = SWV(x, window, axis=axis_t)
+                wax = tuple(range(v.ndim - len(window), v.ndim))
+                want = v if red is None else getattr(np, red)(v, axis=wax)
+                phase = "impl"
+                r = da.sliding_window_view(d, window, axis=axis_t)
+                if red is not None:
+                    r = getattr(da, red)(r, axis=wax)
+                meta_bad = None
+                if tuple(r.shape) != want.shape:
+                    meta_bad = f"declared shape {tuple(r.shape)} != NumPy shape {want.shape}"
+                elif tuple(sum(c) for c in r.chunks) != want.shape:
+                    meta_bad = f"advertised chunks {r.chunks} do not sum to shape {want.shape}"
+                got = r.compute()
+                if meta_bad is not None and same(got, want, exact):
+                    c = dict(case)
+                    c["meta"] = meta_bad
+                    ctx.fail(sig + ":meta", c, "declared shape / chunks differ from the NumPy shape")
+                    return "bad"
+                exact = exact and red not in ("mean",)
+            elif kind == "mo_slice":
+                # map_overlap (periodic etc.) followed by unit-step slices, some strictly inside the halo
+                depth = {int(k): int(v) for k, v in case["depth"]}
+                boundary = {int(k): v for k, v in case["boundary"]}
+                axes = sorted(k for k, v in depth.items() if v != 0)
+                index = tuple(slice(a, b) for a, b in case["index"])
+                sig = "map_overlap:slice"
+                padded = x
+                sl = []
+                for ax in range(x.ndim):
+                    dep = depth.get(ax, 0)
+                    b = boundary.get(ax, "none")
+                    if dep == 0 or b == "none":
+                        sl.append(slice(None))
+                        continue
+                    pw = [(0, 0)] * x.ndim
+                    pw[ax] = (dep, dep)
+                    padded = np.pad(padded, pw, mode=PAD_MODE[b]) if b in PAD_MODE else np.pad(padded, pw, mode="constant", constant_values=b)
+                    sl.append(slice(dep, -dep))
+                want = sten_all(padded, axes)[tuple(sl)][index]
+                phase = "impl"
+                r = da.map_overlap(sten_all, d, depth=depth, boundary=boundary, dtype=x.dtype, axes=axes)[index]
+                got = r.compute()
+                if tuple(r.shape) != want.shape and same(got, want, exact):
+                    c = dict(case)
+                    c["meta"] = f"declared shape {tuple(r.shape)} != {want.shape}"
+                    ctx.fail(sig + ":meta", c, "declared shape differs")
+                    return "bad"
             elif kind == "move":
                 import bottleneck as bn
 
@@ -734,6 +787,76 @@ def search(ctx):
             w = (w[1], w[0])
         case = {"kind": "swv", "shape": list(shape), "chunks": [list(c) for c in cks], "window": list(w), "axis": axis, "dseed": k, "reducer": red, "dtype": "int"}
         run(case, ("multi", red))
+
+    # multi-axis windows incl. negative and repeated axes (mixed spellings), 2-D and 3-D, alone and reduced
+    # over all window axes; shape, advertised chunks and values are compared
+    for _ in range(ctx.scale(260, 4000)):
+        k += 1
+        nd = rng.choice([2, 2, 3])
+        shape = tuple(rng.randint(3, 7) if nd == 2 else rng.randint(2, 5) for _ in range(nd))
+        cks = tuple(gen.rand_chunks(rng, s_) for s_ in shape)
+        style = rng.choice(["distinct", "repeat", "repeat", "mixed-spelling", "negative", "triple"])
+        if style == "distinct":
+            axs = rng.sample(range(nd), rng.randint(2, nd))
+        elif style == "negative":
+            axs = [a - nd for a in rng.sample(range(nd), rng.randint(1, nd))]
+        elif style == "repeat":
+            a = rng.randrange(nd)
+            axs = [a, a] + ([rng.randrange(nd)] if rng.random() < 0.3 else [])
+        elif style == "mixed-spelling":
+            a = rng.randrange(nd)
+            axs = [a - nd, a] if rng.random() < 0.5 else [a, a - nd]
+            if rng.random() < 0.3:
+                axs.insert(rng.randint(0, 2), rng.randrange(nd))
+        else:
+            a = rng.randrange(nd)
+            axs = [a, a - nd, a]
+        win = []
+        room = {a % nd: shape[a % nd] for a in axs}
+        for a in axs:
+            w = rng.randint(1, max(1, min(3, room[a % nd])))
+            room[a % nd] -= w - 1
+            win.append(w)
+        red = rng.choice([None, None, "sum", "max", "min"])
+        case = {"kind": "swvm", "shape": list(shape), "chunks": [list(c) for c in cks], "window": win, "axis": axs,
+                "reducer": red, "dtype": "int", "dseed": k}
+        run(case, (style, nd, red, len(axs), any(len(c) > 1 for c in cks)))
+
+    # map_overlap with a wrapping/padding boundary, depth ≥ 2, then unit-step slices that start/stop strictly
+    # inside the halo and cull blocks (the slice is pushed through MapOverlap by the optimizer)
+    for _ in range(ctx.scale(160, 2500)):
+        k += 1
+        nd = rng.choice([1, 1, 2])
+        shape = tuple(rng.randint(6, 14) for _ in range(nd))
+        cks = tuple(gen.rand_chunks(rng, s_, maxparts=6) for s_ in shape)
+        depth, bnd, index = [], [], []
+        for ax in range(nd):
+            dep = rng.choice([2, 2, 3, 4]) if ax == 0 or rng.random() < 0.5 else 0
+            dep = min(dep, shape[ax] // 2)
+            b = rng.choice(["periodic", "periodic", "periodic", "reflect", "nearest", "none", 5])
+            n_ = shape[ax]
+            mode = rng.choice(["halo-start", "halo-stop", "halo-both", "interior", "edge", "full"])
+            lo, hi = 0, n_
+            if dep >= 2 and mode in ("halo-start", "halo-both"):
+                lo = rng.randint(1, dep - 1)
+            if dep >= 2 and mode in ("halo-stop", "halo-both"):
+                hi = n_ - rng.randint(1, dep - 1)
+            if mode == "interior":
+                lo = rng.randint(0, n_ - 1)
+                hi = rng.randint(lo + 1, n_)
+            if mode == "edge":
+                lo, hi = rng.choice([(0, rng.randint(1, n_)), (rng.randint(0, n_ - 1), n_)])
+            if mode in ("halo-start",) and hi - lo > 2 and rng.random() < 0.6:
+                hi = rng.randint(lo + 1, n_ - 1)  # cull trailing blocks
+            if mode in ("halo-stop",) and hi - lo > 2 and rng.random() < 0.6:
+                lo = rng.randint(1, hi - 1)
+            depth.append([ax, dep])
+            bnd.append([ax, b])
+            index.append([lo, hi])
+        case = {"kind": "mo_slice", "shape": list(shape), "chunks": [list(c) for c in cks], "depth": depth, "boundary": bnd,
+                "index": index, "dtype": "int", "dseed": k}
+        run(case, (nd, tuple(str(b[1]) for b in bnd), tuple(0 < i[0] < dv[1] for i, dv in zip(index, depth)),
+                   tuple(n_ - dv[1] < i[1] < n_ for i, dv, n_ in zip(index, depth, shape))))
 
     # ---- S2 bottleneck move_* through map_overlap
     MOVES = ["move_sum", "move_mean", "move_min", "move_max"]
